@@ -406,92 +406,28 @@ def drive(crate, unit, fn, abstract=None, deadline=None, inputs=None):
                 out_terms(it, a, outs, arrs)
     return dict(outs=outs, arrs=arrs, panic=it.panic, abort=it.abort, vars=inp.vars, sig=sig if sigok else None, kind=kind, it=it)
 
-def guarded_simplify(terms, seconds):
-    """z3.simplify of all terms in one call, interrupted after `seconds` (None then)"""
-    import threading
-    if not terms:
-        return []
-    f = z3.Function("pack!", *([t.sort() for t in terms] + [z3.BoolSort()]))
-    ctx = z3.main_ctx()
-    timer = threading.Timer(seconds, ctx.interrupt)
-    timer.start()
-    try:
-        r = z3.simplify(f(*terms))
-        return list(r.children())
-    except z3.Z3Exception:
-        return None
-    finally:
-        timer.cancel()
-
-def model_inputs(m, vars_):
-    inp = {}
-    for v in vars_:
-        if len(v) == 2:
-            x = m.eval(v[1], model_completion=True)
-            inp[v[0]] = (int(z3.is_true(x)), 1) if z3.is_bool(v[1]) else (x.as_long(), v[1].size())
-        else:
-            name, a, n = v
-            w = a.range().size()
-            for i in range(n):
-                inp[f"{name}[{i}]"] = (m.eval(z3.Select(a, z3.BitVecVal(i, 64)), model_completion=True).as_long(), w)
-    return inp
-
-def random_trials(cur, pin, unit, fn, trials=5, wall=20):
-    """run both versions concretely on pseudo-random inputs; a dict(input=…, what=…) for the first disagreement, else None"""
-    t0 = time.time()
-    for k in range(trials):
-        if time.time() - t0 > wall:
-            break
-        outs = []
-        try:
-            for c in (cur, pin):
-                ri = RandInputs(k)
-                d = drive(c, unit, fn, inputs=ri, deadline=time.time() + wall)
-                vals = tuple(str(z3.simplify(x)) for x in d["outs"])
-                outs.append((S.conc_bool(z3.simplify(d["abort"])), S.conc_bool(z3.simplify(d["panic"])), vals, ri.values))
-        except (Unsupported, KeyError, IndexError, AttributeError, TypeError, AssertionError, ValueError, z3.Z3Exception, RecursionError):
-            return None
-        a, b = outs
-        if a[0] is None or b[0] is None or set(a[3]) != set(b[3]):
-            return None
-        if a[0] != b[0] or a[1] != b[1]:
-            return dict(input=a[3], what=f"the panic behaviour differs (abort, debug panic): current {a[:2]}, pinned {b[:2]}")
-        if not a[0] and a[2] != b[2]:
-            n = next((i for i, (x, y) in enumerate(zip(a[2], b[2])) if x != y), len(min(a[2], b[2], key=len)))
-            return dict(input=a[3], what=f"result component {n} differs")
-    return None
-
-def solve_forked(formula, flags, vars_, timeout_ms, mem_gb=6):
-    """z3 in a child process with a memory limit and a hard wall-clock limit (the solver's own timeout is not honoured while it
-    preprocesses big array / bit-vector formulas); returns dict(r='sat'|'unsat'|'unknown', input=…, flagdiff=…, why=…)"""
+def forked(fn, seconds, mem_gb=6):
+    """run fn() in a child process with a memory limit and a hard wall-clock limit; its JSON-able result, or None.
+    (z3 honours neither its own timeout nor an interrupt reliably on big array / bit-vector terms, and an interrupted context
+    stops simplifying afterwards — so nothing long runs in this process.)"""
     import resource, select, signal
     rfd, wfd = os.pipe()
     pid = os.fork()
     if pid == 0:
-        out = dict(r="unknown", why="solver crashed")
+        out = None
         try:
             os.close(rfd)
             lim = mem_gb << 30
             resource.setrlimit(resource.RLIMIT_AS, (lim, lim))
-            s = z3.Solver()
-            s.set("timeout", timeout_ms)
-            s.add(formula)
-            r = s.check()
-            out = dict(r=str(r))
-            if r == z3.sat:
-                m = s.model()
-                out["input"] = model_inputs(m, vars_)
-                out["flagdiff"] = bool(flags) and z3.is_true(m.eval(z3.Or(*flags), model_completion=True))
-            elif r != z3.unsat:
-                out["why"] = s.reason_unknown()
+            out = fn()
         except BaseException as e:
-            out = dict(r="unknown", why=f"solver: {e!r}"[:200])
+            out = dict(error=f"{e!r}"[:200])
         try:
             os.write(wfd, json.dumps(out).encode())
         finally:
             os._exit(0)
     os.close(wfd)
-    buf, end = b"", time.time() + timeout_ms / 1000 + 15
+    buf, end = b"", time.time() + seconds
     while True:
         left = end - time.time()
         if left <= 0:
@@ -512,7 +448,169 @@ def solve_forked(formula, flags, vars_, timeout_ms, mem_gb=6):
     try:
         return json.loads(buf.decode())
     except Exception:
-        return dict(r="unknown", why="timeout (solver stopped after the wall-clock limit or ran out of memory)")
+        return None
+
+def identical_after_simplify(pairs, seconds):
+    """indices of the pairs whose two terms z3.simplify makes identical (one call over all terms: they share most of their
+    structure); None if that takes longer than `seconds`"""
+    if not pairs:
+        return []
+    def work():
+        terms = [q[1] for q in pairs] + [q[2] for q in pairs]
+        f = z3.Function("pack!", *([t.sort() for t in terms] + [z3.BoolSort()]))
+        st = z3.simplify(f(*terms)).children()
+        k = len(pairs)
+        return [i for i in range(k) if st[i].eq(st[k + i])]
+    r = forked(work, seconds)
+    return r if isinstance(r, list) else None
+
+def model_inputs(m, vars_):
+    inp = {}
+    for v in vars_:
+        if len(v) == 2:
+            x = m.eval(v[1], model_completion=True)
+            inp[v[0]] = (int(z3.is_true(x)), 1) if z3.is_bool(v[1]) else (x.as_long(), v[1].size())
+        else:
+            name, a, n = v
+            w = a.range().size()
+            for i in range(n):
+                inp[f"{name}[{i}]"] = (m.eval(z3.Select(a, z3.BitVecVal(i, 64)), model_completion=True).as_long(), w)
+    return inp
+
+def random_trials(cur, pin, unit, fn, trials=5, wall=20):
+    """run both versions concretely on pseudo-random inputs; a dict(input=…, what=…) for the first disagreement, else None"""
+    t0 = time.time()
+    for k in range(trials):
+        if time.time() - t0 > wall:
+            break
+        hit = concrete_pair(cur, pin, unit, fn, lambda: RandInputs(k), wall)
+        if hit:
+            return hit
+    return None
+
+class FixedInputs(RandInputs):
+    """concrete inputs: the given values, pseudo-random ones for everything else"""
+    def __init__(self, trial, given):
+        RandInputs.__init__(self, trial)
+        self.given = given
+    def bv(self, name, ty):
+        if name in self.given:
+            x = self.given[name] & ((1 << W[ty]) - 1)
+            self.values[name] = (x, W[ty])
+            return I(x, ty)
+        return RandInputs.bv(self, name, ty)
+
+def concrete_pair(cur, pin, unit, fn, make_inputs, wall):
+    """both versions on the same concrete inputs: None (agree / cannot run) or dict(input, what)"""
+    outs = []
+    try:
+        for c in (cur, pin):
+            ri = make_inputs()
+            d = drive(c, unit, fn, inputs=ri, deadline=time.time() + wall)
+            vals = tuple(str(z3.simplify(x)) for x in d["outs"])
+            outs.append((S.conc_bool(z3.simplify(d["abort"])), S.conc_bool(z3.simplify(d["panic"])), vals, ri.values))
+    except (Unsupported, KeyError, IndexError, AttributeError, TypeError, AssertionError, ValueError, z3.Z3Exception, RecursionError):
+        return None
+    a, b = outs
+    if a[0] is None or b[0] is None or set(a[3]) != set(b[3]):
+        return None
+    if a[0] != b[0] or a[1] != b[1]:
+        return dict(input=a[3], what=f"the panic behaviour differs (abort, debug panic): current {a[:2]}, pinned {b[:2]}")
+    if not a[0] and a[2] != b[2]:
+        n = next((i for i, (x, y) in enumerate(zip(a[2], b[2])) if x != y), len(min(a[2], b[2], key=len)))
+        return dict(input=a[3], what=f"result component {n} differs")
+    return None
+
+def cond_atoms(term, byname, limit=4000):
+    """input atoms (scalar variables, array cells at constant indices) occurring in a term: {name: z3 term}; None if the term is big"""
+    seen, stack, atoms = set(), [term], {}
+    while stack:
+        x = stack.pop()
+        i = x.get_id()
+        if i in seen:
+            continue
+        seen.add(i)
+        if len(seen) > limit:
+            return None
+        if z3.is_const(x) and x.decl().kind() == z3.Z3_OP_UNINTERPRETED:
+            n = x.decl().name()
+            if n in byname and len(byname[n]) == 2:
+                atoms[n] = x
+            continue
+        if z3.is_select(x) and z3.is_const(x.arg(0)) and z3.is_bv_value(x.arg(1)):
+            n = x.arg(0).decl().name()
+            if n in byname and len(byname[n]) == 3 and x.arg(1).as_long() < byname[n][2]:
+                atoms[f"{n}[{x.arg(1).as_long()}]"] = x
+                continue
+        stack.extend(x.children())
+    return atoms
+
+def directed_trials(cur, pin, unit, fn, runs, budget_s=20):
+    """branch-directed concrete tests: for every symbolic branch condition met while executing either version (and its
+    negation), z3 solves the condition for a few of the inputs it mentions with all others fixed at pseudo-random values —
+    an input that takes the rare side of `sum == 0`, `a == b`, an overflow … without being degenerate — and both versions are
+    run concretely on it"""
+    t0 = time.time()
+    byname = {v[0]: v for v in runs[0]["vars"]}
+    conds, seen = [], set()
+    for r in runs:
+        for pc, c in r["it"].branches:
+            f = z3.And(*(pc + [c])) if pc else c
+            g = z3.And(*(pc + [z3.Not(c)])) if pc else z3.Not(c)
+            for h in (f, g):
+                if h.get_id() not in seen:
+                    seen.add(h.get_id()); conds.append(h)
+    rng = random.Random(77)
+    tried = 0
+    for ci, f in enumerate(conds[:80]):
+        if time.time() - t0 > budget_s:
+            break
+        atoms = cond_atoms(f, byname)
+        if not atoms:
+            continue
+        names = sorted(atoms)
+        for k in sorted({1, 2, 4, max(1, len(names) // 4), max(1, len(names) // 2), len(names)}):
+            if k > len(names) or time.time() - t0 > budget_s:
+                break
+            free = set(rng.sample(names, k))
+            base = RandInputs(1000 + ci)
+            s = z3.Solver()
+            s.set("timeout", 700)
+            s.add(f)
+            for n in names:
+                if n not in free:
+                    s.add(atoms[n] == z3.BitVecVal(base.rnd(n, atoms[n].size()), atoms[n].size()))
+            if s.check() != z3.sat:
+                continue
+            m = s.model()
+            given = {n: m.eval(atoms[n], model_completion=True).as_long() for n in names}
+            tried += 1
+            hit = concrete_pair(cur, pin, unit, fn, lambda: FixedInputs(1000 + ci, given), budget_s)
+            if hit:
+                hit["what"] += f" (input solved for a branch condition of the code, {k} of its {len(names)} inputs free, the others pseudo-random)"
+                return hit
+            break
+    return None
+
+def solve_forked(formula, flags, vars_, timeout_ms, mem_gb=6):
+    """z3 in a child process; returns dict(r='sat'|'unsat'|'unknown', input=…, flagdiff=…, why=…)"""
+    def work():
+        s = z3.Solver()
+        s.set("timeout", timeout_ms)
+        s.add(formula)
+        r = s.check()
+        out = dict(r=str(r))
+        if r == z3.sat:
+            m = s.model()
+            out["input"] = model_inputs(m, vars_)
+            out["flagdiff"] = bool(flags) and z3.is_true(m.eval(z3.Or(*flags), model_completion=True))
+        elif r != z3.unsat:
+            out["why"] = s.reason_unknown()
+        return out
+    r = forked(work, timeout_ms / 1000 + 6, mem_gb)
+    if not isinstance(r, dict) or "r" not in r:
+        return dict(r="unknown", why="timeout (solver stopped after the wall-clock limit or ran out of memory)" if not r else str(r.get("error")))
+    return r
 
 def compare_block(cur, pin, unit, fn, timeout_ms, abs_cur=None, abs_pin=None, wall=60):
     """compare unit::fn of the two crates.  Returns (result dict, signature of the inputs or None, kinds)"""
@@ -551,12 +649,21 @@ def compare_block(cur, pin, unit, fn, timeout_ms, abs_cur=None, abs_pin=None, wa
     pairs += [("out", x, y, None) for x, y in zip(a["outs"], b["outs"])]
     pairs += [("arr", x, y, n) for (x, n), (y, _) in zip(a["arrs"], b["arrs"])]
     pairs = [q for q in pairs if not q[1].eq(q[2])]
-    # 2. one bounded simplification of everything that is left (one call: the terms share most of their structure)
+    # 2. concrete falsifiers, 3. one bounded simplification of everything that is left (one call: the terms share most of their structure)
+    if pairs and not used:
+        # cheap falsifier first: both versions on a few pseudo-random concrete inputs
+        hit = random_trials(cur, pin, unit, fn, wall=min(20, wall))
+        if hit:
+            return dict(status="different", detail=f"concrete run on pseudo-random inputs: {hit['what']}", mode=mode,
+                        input={k: v for k, v in hit["input"].items() if isinstance(v, tuple)}), None, kinds
+        hit = directed_trials(cur, pin, unit, fn, [a, b], budget_s=min(25, wall))
+        if hit:
+            return dict(status="different", detail=f"concrete run: {hit['what']}", mode=mode,
+                        input={k: v for k, v in hit["input"].items() if isinstance(v, tuple)}), None, kinds
     if pairs:
-        st = guarded_simplify([q[1] for q in pairs] + [q[2] for q in pairs], min(20, max(5, wall // 3)))
-        if st is not None:
-            k = len(pairs)
-            pairs = [(q[0], st[i], st[k + i], q[3]) for i, q in enumerate(pairs) if not st[i].eq(st[k + i])]
+        same = identical_after_simplify(pairs, min(20, max(4, wall // 3)))
+        if same:
+            pairs = [q for i, q in enumerate(pairs) if i not in set(same)]
     flags, diffs = [], []
     for kind, x, y, n in pairs:
         if kind == "flag":
@@ -569,12 +676,6 @@ def compare_block(cur, pin, unit, fn, timeout_ms, abs_cur=None, abs_pin=None, wa
     tsym = time.time() - t0
     if not diffs and not flags:
         return dict(status="same", detail=f"identical terms after simplification ({mode}; {tsym:.1f}s)", mode=mode), sig, kinds
-    if not used:
-        # cheap falsifier first: both versions on a few pseudo-random concrete inputs
-        hit = random_trials(cur, pin, unit, fn, wall=min(20, wall))
-        if hit:
-            return dict(status="different", detail=f"concrete run on pseudo-random inputs: {hit['what']}", mode=mode,
-                        input={k: v for k, v in hit["input"].items() if isinstance(v, tuple)}), None, kinds
     goal = flags + ([z3.And(z3.Not(a["abort"]), z3.Or(*diffs))] if diffs else [])
     res = solve_forked(z3.Or(*goal), flags, a["vars"], timeout_ms)
     tz = time.time() - t0 - tsym
@@ -756,10 +857,12 @@ def run_block_unit(unit, spec, repo, pinned, only, timeout_ms, wall_s, budget_s)
         if arr_changed and base in ("generate",):
             r, sig, kinds = dict(status="unknown", detail="isaac_array.rs: IsaacArray or its Deref/AsRef impls changed; generate's results buffer is not modelled"), None, None
         else:
-            r, sig, kinds = compare_block(cur, pin, unit, fn, timeout_ms, None, None, wall_s)
+            hurry = any(x["status"] == "different" for x in results)      # a difference is already known: spend less on the rest
+            tmo, wl = (min(timeout_ms, 6000), min(wall_s, 20)) if hurry else (timeout_ms, wall_s)
+            r, sig, kinds = compare_block(cur, pin, unit, fn, tmo, None, None, wl)
             slow = r["status"] == "unknown" and r.get("detail", "").startswith("z3:") or (r["status"] == "unsupported" and "limit" in r.get("detail", ""))
-            if slow and (abs_cur or abs_pin):
-                r2, sig2, kinds2 = compare_block(cur, pin, unit, fn, timeout_ms, abs_cur, abs_pin, wall_s)
+            if slow and (abs_cur or abs_pin) and not hurry:
+                r2, sig2, kinds2 = compare_block(cur, pin, unit, fn, tmo, abs_cur, abs_pin, wl)
                 if r2["status"] in ("same", "equivalent") and r2.get("mode") != "direct":
                     r2["status"] = "equivalent"
                     r2["detail"] = r2["detail"] + f"; the direct comparison gave: {r['detail'][:120]}"
@@ -784,6 +887,10 @@ def run_block_unit(unit, spec, repo, pinned, only, timeout_ms, wall_s, budget_s)
                 need_seed = True
         elif r["status"] in ("unknown", "unsupported"):
             need_seed = True
+    have = next((r["replay"] for r in results if r.get("replay")), None)
+    if need_seed and have and spec["serde"]:
+        # a replayable counterexample of this unit exists already; the undecided functions stay undecided
+        need_seed = False
     if need_seed:
         hit, tried, note = seed_search(cur, pin, unit, spec, repo, budget_s)
         for r in results:
@@ -828,7 +935,7 @@ def main():
     only = None
     timeout_ms = 20000
     budget_s = 600
-    wall_s, seed_budget_s = 60, 60
+    wall_s, seed_budget_s = 60, 45
     a = sys.argv[2:]
     while a:
         if a[0] == "--pinned":
